@@ -34,15 +34,18 @@ GATE_RE = re.compile(
     r"impredicative-set|Unset Positivity|Unset Universe")
 
 
-def sh(cmd, timeout=1800, cwd=None, env=None, stdin=None):
+def sh(cmd, timeout=1800, cwd=None, env=None, stdin=None, merge_stderr=True):
     e = dict(os.environ)
     e.setdefault("CARGO_NET_OFFLINE", "true")
     if env:
         e.update(env)
     try:
         p = subprocess.run(cmd, shell=isinstance(cmd, str), cwd=cwd, env=e, input=stdin,
-                           stdout=subprocess.PIPE, stderr=subprocess.STDOUT, timeout=timeout,
-                           text=True)
+                           stdout=subprocess.PIPE,
+                           stderr=subprocess.STDOUT if merge_stderr else subprocess.PIPE,
+                           timeout=timeout, text=True)
+        if not merge_stderr and p.returncode != 0:
+            return p.returncode, p.stdout + "\n[stderr]\n" + (p.stderr or "")[-3000:]
         return p.returncode, p.stdout
     except subprocess.TimeoutExpired as ex:
         out = ex.stdout or ""
@@ -351,14 +354,14 @@ def repo_builds_without_hooks():
 def run_harness(build, binname, lines, timeout=1200, shards=1, args=""):
     exe = os.path.join(build["dir"], binname)
     if shards <= 1 or len(lines) < 2 * shards:
-        rc, out = sh(f"{exe} {args}", stdin="\n".join(lines) + "\n", timeout=timeout)
+        rc, out = sh(f"{exe} {args}", stdin="\n".join(lines) + "\n", timeout=timeout, merge_stderr=False)
         if rc != 0:
             raise RuntimeError(f"harness {binname} failed rc={rc}:\n{out[-3000:]}")
         return [l for l in out.split("\n") if l.strip()]
     chunks = [lines[i::shards] for i in range(shards)]
 
     def one(c):
-        rc, out = sh(f"{exe} {args}", stdin="\n".join(c) + "\n", timeout=timeout)
+        rc, out = sh(f"{exe} {args}", stdin="\n".join(c) + "\n", timeout=timeout, merge_stderr=False)
         if rc != 0:
             raise RuntimeError(f"harness {binname} failed rc={rc}:\n{out[-3000:]}")
         return [l for l in out.split("\n") if l.strip()]
